@@ -116,8 +116,7 @@ class SequenceIterator(types.Recoverable, Iterator[_T]):
 
   def __init__(self, config: SequenceDataSource):
     self._index = config.start
-    iter_ = iter_utils.iter_ignore_error if config.ignore_error else iter
-    self._it = iter_(config.data[config.start : config.end])
+    self._it = iter(config.data[config.start : config.end])
     self.config = config
 
   def from_state(self, shard_state: ShardConfig) -> Self:
@@ -132,9 +131,21 @@ class SequenceIterator(types.Recoverable, Iterator[_T]):
 
   def __next__(self) -> _T:
     """Iterates the data source given a shard index."""
-    result = next(self._it)
-    self._index += 1
-    return result
+    while True:
+      try:
+        result = next(self._it)
+      except StopIteration:
+        raise
+      except Exception as e:  # pylint: disable=broad-exception-caught
+        # The random access iterator skips the index it failed to read, count
+        # it so that the state points to the first unread element.
+        self._index += 1
+        ignored = iter_utils._IGNORE_ERROR_TYPES  # pylint: disable=protected-access
+        if self.config.ignore_error and isinstance(e, ignored):
+          continue
+        raise
+      self._index += 1
+      return result
 
   def __iter__(self) -> Self:
     """Iterates the data source given a shard index."""
